@@ -230,18 +230,18 @@ overflow checks the Rust panics for messages of 2^61 bytes or more (not realisab
 def digest (cf : State → Bytes → State) (h : Hasher) : State :=
   let state := h.state
   let bits : UInt64 := (h.len + h.blocks.len.toUInt64) * 8
-  let extra : Bytes := [(bits >>> 56).toUInt8, (bits >>> 48).toUInt8, (bits >>> 40).toUInt8,
-    (bits >>> 32).toUInt8, (bits >>> 24).toUInt8, (bits >>> 16).toUInt8, (bits >>> 8).toUInt8,
-    (bits >>> 0).toUInt8]
+  -- `[(bits >> 56) as u8, …, (bits >> 0) as u8]`; the shift amounts, the `blocklen < 56` threshold,
+  -- the 0x80 marker and the two copy offsets are read from the source on every run (T1)
+  let extra : Bytes := sha1TrailerShifts.map (fun s => (bits >>> s).toUInt8)
   let last : Bytes := List.replicate 128 0
   let blocklen := h.blocks.len.toNat
   let last := writeAt last 0 (h.blocks.block.take blocklen)
-  let last := writeAt last blocklen [0x80]
-  if blocklen < 56 then
-    let last := writeAt last 56 extra
+  let last := writeAt last blocklen [sha1PadMarker]
+  if blocklen < sha1PadThreshold then
+    let last := writeAt last sha1TrailerOffShort extra
     cf state (last.take 64)
   else
-    let last := writeAt last 120 extra
+    let last := writeAt last sha1TrailerOffLong extra
     let state := cf state (last.take 64)
     cf state ((last.drop 64).take 64)
 
